@@ -600,7 +600,7 @@ def random_cfg(r, target, types, ptr_size, deny):
     cfg = {"ptr_size": ptr_size, "types": vals, "float": any(t[0] == "f" for t in vals),
            "size": r.choice([8, 14, 24, 40]), "n_funcs": 3, "shape": "mem" if r.random() < 0.2 else "ssa",
            "rotates": cm.avoided({"binop:rol:i32", "binop:ror:i32"}, deny) is None and r.random() < 0.5,
-           "undefined": r.random() < 0.3, "volatile": r.random() < 0.3}
+           "undefined": r.random() < 0.3, "volatile": r.random() < 0.3, "casts": True}
     return cfg
 
 
